@@ -208,6 +208,11 @@ def fileno_programs():
                 if init == (0, 0) and not tops:
                     continue
                 progs.append({"init": init, "callers": ncall, "T": tops})
+    # set_combine_stderr(True) after fileno(), then stdout drained: stderr bytes buffered before / fed after the switch
+    for init in ((0, 1), (1, 1), (0, 2), (0, 0)):
+        for tops in ([], ["f2"], ["f1", "f2"]):
+            for rops in (["cmb", "r1"], ["cmb", "r1", "r1"], ["r1", "cmb", "r1"]):
+                progs.append({"init": init, "callers": 1, "T": tops, "R": rops})
     return progs
 
 
@@ -236,8 +241,26 @@ def fileno_scenario(prog):
                 else:
                     ch._feed_extended(dchan.msg_ext(1, b"y"))
                 events.append({"op": op, "n": 1})
-        for k in range(prog["callers"]):
-            S.spawn(caller(k), "F%d" % (k + 1))
+        def rbody():
+            import socket
+            # the application: fileno() first, then switch stderr into stdout and drain stdout as after select()
+            got[0] = ch.fileno()
+            ch.settimeout(0.0)
+            for op in prog["R"]:
+                if op == "cmb":
+                    ch.set_combine_stderr(True)
+                    events.append({"op": "cmb", "n": 0})
+                else:
+                    try:
+                        d = ch.recv(65536)
+                    except socket.timeout:
+                        d = b""
+                    events.append({"op": "r1", "n": len(d)})
+        if prog.get("R"):
+            S.spawn(rbody, "R")
+        else:
+            for k in range(prog["callers"]):
+                S.spawn(caller(k), "F%d" % (k + 1))
         if prog["T"]:
             S.spawn(tbody, "T")
 
